@@ -1,6 +1,6 @@
-/* C08 — ghost state and AUTH_INV as pure expressions (no function calls: they are also used inside the loop contract of
- * _dbus_auth_do_work, contracts/c08_auth.ovl).  Written with the non-short-circuit operators & and | on _Bool values, so the
- * symbolic executor sees straight-line code instead of thousands of branches.
+/* C08 — ghost state and AUTH_INV as pure expressions (no function calls, so they could also be used inside CBMC loop
+ * contracts).  Written with the non-short-circuit operators & and | on _Bool values, so the symbolic executor sees
+ * straight-line code instead of thousands of branches.
  * May be included before or after the real translation unit: the macros name its statics only where they are expanded. */
 #ifndef C08_INV_H
 #define C08_INV_H
